@@ -90,17 +90,18 @@ Section Top.
 
   (* dry run at job level: nothing changes (F4 / F16 repaired, or not needed) *)
   Theorem sync_jobs_dry_id : forall o deep fp src dst dsp,
-    o_dry_run o = true -> fix_F4 cf = true \/ o_recursive o = false -> fix_F16 cf = true ->
-    (forall sd, src = Some sd -> NoDup (map fst (read_doc FN_DOC sd))) ->
+    o_dry_run o = true -> fix_F4 cf = true \/ o_recursive o = false ->
+    (forall sd, src = Some sd -> (fix_F16 cf = true \/ flat_obj (JObj (read_doc FN_DOC sd)) = true)
+                                 /\ NoDup (map fst (read_doc FN_DOC sd))) ->
     fst (sync_jobs_m frepr cf o deep fp src dst dsp) = dst.
   Proof.
-    intros o deep fp src dst dsp Hdry H4 H16 Hwf. unfold sync_jobs_m. rewrite Hdry, orb_true_r.
+    intros o deep fp src dst dsp Hdry H4 Hwf. unfold sync_jobs_m. rewrite Hdry, orb_true_r.
     destruct src as [sdir|]; [|reflexivity].
     destruct dst as [ddir|]; [|destruct (fix_dryinit cf); reflexivity].
     pose proof (sync_ws_dry_id frepr cf (S (depth (Dir sdir))) o deep sdir ddir [] Hdry H4) as W.
     destruct (sync_ws frepr cf (S (depth (Dir sdir))) o deep sdir ddir []) as [d1 e1]. simpl in W. subst d1.
     destruct e1; [reflexivity|].
-    pose proof (sync_doc_dry_id cf H16 o FN_DOC sdir ddir Hdry (Hwf sdir eq_refl)) as D.
+    pose proof (sync_doc_dry_id cf o FN_DOC sdir ddir (proj1 (Hwf sdir eq_refl)) Hdry (proj2 (Hwf sdir eq_refl))) as D.
     destruct (sync_doc cf o FN_DOC sdir ddir) as [d2 e2]. simpl in D. subst d2. reflexivity.
   Qed.
 
@@ -113,6 +114,65 @@ Section Top.
     - destruct (sync_jobs_m frepr cf o (proj_deep cf o) true (Some sdir) (Some ddir) JNull) as [[x|] e]; simpl;
         [apply alookup_aset_other; congruence|reflexivity].
     - apply copy_tree_frame. assumption.
+  Qed.
+
+  Definition clone_excl (o : opts) (k : str) : bool :=
+    o_exclude o k && negb (str_eqb k FN_SP || str_eqb k FN_DOC).
+
+  (* a job that does not exist in the destination is cloned: a copy of the whole source job directory *)
+  Lemma clone_exact : forall o id sd ws, o_dry_run o = false -> alookup id ws = None ->
+    clone_or_sync frepr cf o (id, Dir sd) ws =
+    (ws ++ [(id, touch (if fix_excl cf then prune (clone_excl o) (Dir sd) else Dir sd))], None).
+  Proof. intros o id sd ws Hdry Hn. unfold clone_or_sync, copy_tree. rewrite Hn, Hdry. reflexivity. Qed.
+
+  Lemma file_same_deep : forall c1 m1 c2 m2,
+    file_same frepr true c1 m1 c2 m2 = bytes_eqb (content_bytes frepr c1) (content_bytes frepr c2).
+  Proof. reflexivity. Qed.
+
+  Lemma excluded_doc : forall o, o_docsync o <> DS_copy -> excluded cf o FN_DOC = true.
+  Proof.
+    intros o H. unfold excluded, implicit_match.
+    destruct (o_docsync o); try congruence;
+      (destruct (fix_implicit cf); [replace (str_eqb FN_DOC FN_DOC) with true by (vm_compute; reflexivity)
+                                   |replace (re_match_lit FN_DOC FN_DOC) with true by (vm_compute; reflexivity)]);
+      rewrite !orb_true_r; reflexivity.
+  Qed.
+
+  Lemma excluded_sp : forall o, excluded cf o FN_SP = true.
+  Proof.
+    intros o. unfold excluded, implicit_match.
+    destruct (fix_implicit cf); [replace (str_eqb FN_SP FN_SP) with true by (vm_compute; reflexivity)
+                                |replace (re_match_lit FN_SP FN_SP) with true by (vm_compute; reflexivity)];
+      rewrite orb_true_r; reflexivity.
+  Qed.
+
+  (* C14: with DocSync.NO_SYNC the job document is not touched at all *)
+  Theorem no_sync_touches_nothing : forall o deep fp sdir ddir dsp d' e,
+    o_docsync o = DS_nosync ->
+    (forall es, alookup FN_DOC ddir <> Some (Dir es)) ->
+    sync_jobs_m frepr cf o deep fp (Some sdir) (Some ddir) dsp = (Some d', e) ->
+    alookup FN_DOC d' = alookup FN_DOC ddir.
+  Proof.
+    intros o deep fp sdir ddir dsp d' e Hds Hnd H. rewrite sync_jobs_existing in H.
+    pose proof (sync_ws_untouched frepr cf (S (depth (Dir sdir))) o deep sdir ddir [] FN_DOC) as U.
+    destruct (sync_ws frepr cf (S (depth (Dir sdir))) o deep sdir ddir []) as [d1 e1]. simpl in U.
+    assert (Hex : excluded cf o FN_DOC = true) by (apply excluded_doc; congruence).
+    rewrite <- U by (right; split; assumption).
+    destruct e1; [inversion H; reflexivity|].
+    rewrite (sync_doc_nosync cf o FN_DOC sdir d1 (or_introl Hds)) in H. inversion H. reflexivity.
+  Qed.
+
+  (* the state point file of an existing destination job is never touched *)
+  Theorem statepoint_untouched : forall o deep fp sdir ddir dsp d' e,
+    (forall es, alookup FN_SP ddir <> Some (Dir es)) ->
+    sync_jobs_m frepr cf o deep fp (Some sdir) (Some ddir) dsp = (Some d', e) ->
+    alookup FN_SP d' = alookup FN_SP ddir.
+  Proof.
+    intros o deep fp sdir ddir dsp d' e Hnd H.
+    assert (N1 : FN_SP <> FN_DOC) by (vm_compute; discriminate).
+    assert (N2 : FN_SP <> backup_name FN_DOC) by (vm_compute; discriminate).
+    rewrite (sync_jobs_files o deep fp sdir ddir dsp d' e FN_SP H N1 N2).
+    apply sync_ws_untouched. right. split; [apply excluded_sp|assumption].
   Qed.
 
   Lemma clone_or_sync_local : forall o, local_step (fun kn : str * node => fst kn) (clone_or_sync frepr cf o).
@@ -203,7 +263,7 @@ Section Top.
   Proof.
     intros all o src dst Hdry H4 H16 [Hp Hj]. unfold sync_projects_m.
     destruct (schema_conflict o src dst); [reflexivity|].
-    pose proof (sync_doc_dry_id cf H16 o FN_PDOC (p_top src) (p_top dst) Hdry Hp) as D.
+    pose proof (sync_doc_dry_id cf o FN_PDOC (p_top src) (p_top dst) (or_introl H16) Hdry Hp) as D.
     destruct (sync_doc cf o FN_PDOC (p_top src) (p_top dst)) as [top' e]. simpl in D. subst top'.
     destruct e; [destruct dst; reflexivity|].
     assert (Hid : forall kn ws, In kn (filter (fun kn => job_selected o (fst kn)) (p_ws src)) ->
@@ -211,9 +271,9 @@ Section Top.
     { intros [id n] ws Hin. apply filter_In in Hin. destruct Hin as [Hin _]. unfold clone_or_sync.
       destruct n as [c m|sdir]; [reflexivity|].
       destruct (alookup id ws) as [[c m|ddir]|] eqn:E; try reflexivity.
-      - pose proof (sync_jobs_dry_id o (proj_deep cf o) true (Some sdir) (Some ddir) JNull Hdry (or_introl H4) H16) as J.
+      - pose proof (sync_jobs_dry_id o (proj_deep cf o) true (Some sdir) (Some ddir) JNull Hdry (or_introl H4)) as J.
         destruct (sync_jobs_m frepr cf o (proj_deep cf o) true (Some sdir) (Some ddir) JNull) as [x e].
-        simpl in J. rewrite J by (intros sd Hsd; inversion Hsd; subst; eapply Hj; eauto).
+        simpl in J. rewrite J by (intros sd Hsd; inversion Hsd; subst; split; [left; assumption|eapply Hj; eauto]).
         simpl. apply aset_same. assumption.
       - unfold copy_tree. rewrite Hdry, H4. reflexivity. }
     destruct all.
